@@ -35,8 +35,10 @@ func (d *DeterministicSampler) Start() error {
 	d.metricNames = newSamplerMetricNames("deterministic", d.Metrics)
 	// Get the actual upper bound - the largest possible value divided by
 	// the sample rate. In the case where the sample rate is 1, this should
-	// sample every value.
-	d.upperBound = math.MaxUint32 / uint32(d.sampleRate)
+	// sample every value. Rates of 1 or less keep everything (see
+	// GetSampleRate) and must not be used as a divisor; the division is done
+	// in 64 bits so that a rate beyond the uint32 range can't truncate to zero.
+	d.upperBound = uint32(math.MaxUint32 / uint64(max(d.sampleRate, 1)))
 
 	return nil
 }
